@@ -347,6 +347,7 @@ func idsOf(rows []any) ([]float64, bool) {
 func (p *c01) RunCase(i int) *core.CaseResult {
 	defer withNoise()()
 	r := &core.CaseResult{}
+	defer withUsage(r, "C01")()
 	pred := p.preds[i]
 	sel := NewSelect("t", Item{E: Col{"id"}})
 	sel.Where = pred
